@@ -69,7 +69,7 @@ class C09(P.Property):
         for i in range(nkw):
             ln = rng.choice(LENS[:9] if small else LENS)
             if big and i < 2:
-                ln = rng.choice([100, 255, 256, 257, 300])
+                ln = rng.choice([100, 255, 256, 257, 300, 1024, 1025, 1500])
             kw = "".join(rng.choice(["a", "b", "c", "k", "é", "z", "0", "-", "W", " ", "\x00", "ÿ", "\u20ac"]) for _ in range(rng.randint(1, 6))) + str(i)
             if kw[0] == "\x00":
                 kw = "n" + kw  # a keyword may contain NUL bytes but not start with one
